@@ -50,15 +50,15 @@ func (d *DeadNonceList) Insert(name enc.Name, nonce uint32) bool {
 }
 
 // RemoveExpiredEntry removes all expired entries from Dead Nonce List.
+// All of them: the list is served once per tick (100ms), so a bound on the number of
+// entries removed per call is a bound on the rate at which the list drains (100 per
+// tick are 1000 entries per second), while entries are inserted at the rate of the
+// traffic. Above that rate the list would only grow, and its entries would stay (and
+// suppress Interests) long after their lifetime.
 func (d *DeadNonceList) RemoveExpiredEntries() {
-	evicted := 0
-	for d.expirationQueue.Len() > 0 && d.expirationQueue.PeekPriority() < time.Now().UnixNano() {
+	now := time.Now().UnixNano()
+	for d.expirationQueue.Len() > 0 && d.expirationQueue.PeekPriority() < now {
 		hash := d.expirationQueue.Pop()
 		delete(d.list, hash)
-		evicted += 1
-
-		if evicted >= 100 {
-			break
-		}
 	}
 }
